@@ -611,6 +611,11 @@ def finish(res, proof, level_assumptions, checker_cmd):
         "tree_hash": tree_hash(),
     }
     cov.update(res.extra)
+    if not proof_ok:
+        # nothing is discharged when a proof obligation or the build is broken: say so without the proof-level key set
+        # (the run is a violation; the exploration counts below still describe what was searched)
+        del cov["discharged"]
+        cov["proof_broken"] = True
     ev = {"property_id": pid, "tier": res.tier, "seed": seed(), "level": "proof", "coverage": cov,
           "assumptions": level_assumptions, "wall_s": round(time.time() - res.t0, 2),
           "violations": len(new)}
